@@ -221,4 +221,22 @@ def run (cfg : Cfg) (limit : Nat) (d : Doc) (input : List Byte) : Code × Doc ×
   let d := { d with pl := PL.shrink d.g d.pl }
   (c, d, x.s.l.pos)
 
+/-- is the value at location `l` a number -/
+def locIsNumber (d : Doc) (l : Loc) : Bool :=
+  match d.get l with
+  | .i32 _ | .u32 _ | .f32 _ | .i64 _ | .u64 _ | .f64 _ => true
+  | _ => false
+
+/-- `deserializeJson(JsonVariant dst, …)`: the destination is a value inside a document - it is cleared, parsed into, the
+    deserializer is destroyed; the rest of the document is untouched and the pools are not shrunk -/
+def runAt (cfg : Cfg) (limit : Nat) (d : Doc) (l : Loc) (input : List Byte) : Code × Doc × Nat :=
+  let d := d.clearV l
+  let x0 : S := { s := { l := { unread := input } }, d := d }
+  let (c, x) := parseVariant cfg (2 * input.length + 4) limit l x0
+  let c := match c with
+    | .ok => if x.s.l.cur != 0 && !isWs x.s.l.cur && locIsNumber x.d l then .invalid else .ok
+    | e => e
+  let d := match x.b with | some _ => { x.d with pl := x.d.pl.dealloc } | none => x.d
+  (c, d, x.s.l.pos)
+
 end JDD
